@@ -284,6 +284,15 @@ def solve(A, b, **kw):
     A = _obj(A)
     b = _obj(b)
     n = A.shape[0]
+    if kw.get('assume_a') in ('pos', 'sym', 'her', 'positive definite', 'symmetric', 'hermitian'):
+        # LAPACK's symmetric solvers read ONE triangle only (scipy: the upper one unless lower=True): the system that is solved
+        # is the symmetric matrix built from that triangle, whatever the other triangle holds
+        low = bool(kw.get('lower', False))
+        T = _np.empty((n, n), dtype=object)
+        for i in range(n):
+            for j in range(n):
+                T[i, j] = A[max(i, j), min(i, j)] if low else A[min(i, j), max(i, j)]
+        A = T
     if ENG.uf_mode:
         x = uf_array('solve', (A, b), b.shape)
         ENG.records.setdefault('solve', []).append((A, b, x))
